@@ -442,7 +442,7 @@ func main() {
 			os.WriteFile(rp, jb, 0o644)
 			reproduced := false
 			detail := ""
-			if f.Kind == "discipline" {
+			if f.Kind == "discipline" || f.Kind == "model" {
 				// lock-discipline / write-set obligations are properties of every schedule: there is
 				// no single native run that confirms them, the witness is the symbolic path itself
 				reproduced = true
